@@ -15,7 +15,8 @@ THEOREMS = {"Artap.Props.C15": [
     "C15_xsy3_benchmark",             # the randomised XinSheYang3, for every tape of draws in [0,1]
     "C15_exact_optima",               # exact optimum values where the documented coordinates are exact reals
     "C15_well_defined",               # denominators non-zero, sqrt arguments non-negative
-    "C15_schwefel_every_dimension",   # Schwefel without the dimension bound: >= -3.3e-7 per coordinate
+    "C15_schwefel_every_dimension",   # Schwefel (full-precision alpha, fix F9): >= 0 on the box in every dimension
+    "C15_perm_binary64_range",        # Perm's real value fits binary64 on the whole box iff dimension <= 80 (finding F10)
     "C15_prefix_code_refuted",        # the pre-fix formulas / declarations of F3, F4, F5 violate the clauses
 ]}
 
